@@ -443,8 +443,61 @@ def h_seq(shape):
     return h
 
 
+def h_slm(shape):
+    """config_slm_mask in Ising mode: the first global pulse makes the sequence add a pulse to the mask's DMM; that pulse
+    must respect the DMM limits (per-atom and total bottom detuning for the masked atoms) and the clock."""
+
+    def h(inp):
+        stubs.bind(inp)
+        from pulser.pulse import Pulse
+
+        seq = l2.new_seq(shape.get("device", "virt_tightdmm"))
+        masked = shape["masked"]
+        if shape["order"] == "mask_first":
+            seq.config_slm_mask(masked)
+            seq.declare_channel("g", "ryd_glob")
+        else:
+            seq.declare_channel("g", "ryd_glob")
+            seq.config_slm_mask(masked)
+        amp = inp.real("amp", 0.125, 15)
+        d = inp.mult("dur", 4, 8, 400) + shape.get("rem", 0)
+        dmm0 = seq.device.dmm_channels["dmm_0"]
+        nmask = len(masked)
+        # region of finding F16: the mask detuning is clamped to total_bottom_detuning / (number of masked atoms)
+        lim = smax(-10 * amp, dmm0.bottom_detuning)
+        inp.publish("slm_detuning_clamped_to_total_bottom", nmask * lim < dmm0.total_bottom_detuning + nmask * 1e-6)
+        try:
+            seq.add(Pulse.ConstantPulse(d, amp, 0.0, 0.0), "g")
+        except l2.REFUSALS:
+            return [("slm:masked_add_is_accepted", False)]
+        dmm = seq.declared_channels["dmm_0"]
+        cs = seq._schedule["dmm_0"]
+        pulses = [sl for sl in cs.slots if l1.is_pulse(sl)]
+        obs = [("slm:one_dmm_pulse", len(pulses) == 1)]
+        if len(pulses) != 1:
+            return obs
+        sl = pulses[0]
+        det = facade._unwrap0(sl.type.detuning._value)
+        n = len(masked)
+        obs.append(("slm:dmm_detuning_not_positive", det <= 0))
+        obs.append(("slm:dmm_per_atom_bottom", det >= dmm.bottom_detuning - 1e-6))
+        obs.append(("slm:dmm_total_bottom", n * det >= dmm.total_bottom_detuning - 1e-5))
+        obs.append(("slm:dmm_detuning_is_documented_value", OR(det == -10 * amp, det == dmm.bottom_detuning, abs(det - dmm.total_bottom_detuning / n) <= 1e-9)))
+        L = sl.tf - sl.ti
+        obs.append(("slm:dmm_pulse_clock", AND(L % dmm.clock_period == 0, L >= dmm.min_duration)))
+        g_end = seq._schedule["g"].slots[-1].tf
+        obs.append(("slm:dmm_pulse_covers_first_global_pulse", AND(sl.ti == 0, sl.tf >= g_end)))
+        return obs
+
+    return h
+
+
 def kernels(tier):
     ks = _k0(tier)
+    for order in ("mask_first", "channel_first"):
+        for masked in (["q0"], ["q0", "q1"], ["q0", "q1", "q2"]):
+            for rem in (0, 2):
+                ks.append(("slm", dict(order=order, masked=masked, rem=rem)))
     for call in ("add_g", "add_l", "add_dmm", "eom"):
         for prior in (False, True):
             for rem in (0, 1, 3):
@@ -459,4 +512,6 @@ def kernels(tier):
 def harness(kernel, shape):
     if kernel == "seq":
         return h_seq(shape)
+    if kernel == "slm":
+        return h_slm(shape)
     return _h0(kernel, shape)
